@@ -179,6 +179,7 @@ func runC34(c *Ctx) {
 	w := c.W
 	pkg := "z/tls"
 	c34Extras(c)
+	rawInputOwners(c)
 	c25WriteRules(c)
 	if w.Pkg(pkg) == nil {
 		c.Undecided("R-LOCK", pkg, "package", "-", "not loaded")
